@@ -97,6 +97,14 @@ Theorem C06_code_shape :
 Proof. repeat split; reflexivity. Qed.
 Print Assumptions C06_code_shape.
 
+(* worker side: every worker installs the soft-timeout handler, and AFTER the user's initializer has
+   run, so an initializer that resets signal dispositions cannot remove it (Worker.after_fork) *)
+Theorem C06_worker_code_shape :
+  G_pool_shape.soft_handler_installed_in_every_worker = true /\
+  G_pool_shape.initializer_runs_before_signal_setup = true.
+Proof. repeat split; reflexivity. Qed.
+Print Assumptions C06_worker_code_shape.
+
 (* non-vacuity: soft 2 (job) over pool default 4, hard 6; three scans while the job runs:
    exactly one USR1, one callback (soft=True, 2); the task catches it and returns 9 *)
 Definition c06_cfg := mkcfg 2 (Some 4) (Some 6) None None 1 false false.
